@@ -415,3 +415,259 @@ Example C03_example_mvn_composed :
   forall v : nat -> R, (exists i, (i < 2)%nat /\ v i <> 0) ->
     0 < rsum (fun p => rsum (fun q => v p * getm [2; 1; 1; 2] 2 p q * v q) 2) 2.
 Proof. exact Proofs.C03_compose.mvn_sample_example_cov. Qed.
+
+(** * Support and structure of the rejection samplers (the logical half of "draws from the law it describes"; the
+      distributional half stays with the oracle).  [unit_source src]: every [alea::f64()] lies in [0, 1);
+      [range_source src]: every range draw lies in its range.  Nothing else is assumed of the source. *)
+From Compute Require Import Proofs.C03_support Proofs.C03_support_poisson Proofs.C03_support_fuel Proofs.C03_support_cont Proofs.C03_support_normal Proofs.C03_support_nopanic.
+
+(** ** (a) BTPE: every candidate the loop lets out is an integer of [0, n] — triangle and parallelogram candidates are not
+       tested at all and are bounded by the constants of step 0, the left tail is tested only against 0 and the right tail
+       only against n; step 5 never changes the candidate — for every parameter that reaches BTPE (n min(p, 1-p) > 30) *)
+Theorem C03_btpe_step5_keeps_candidate :
+  forall (T : Type) (O : Ops T) (fuel : nat) (n : N) (p : T) (k : btpe_consts) (y v y' : T),
+    btpe_step5 O fuel n p k y v = BAccept y' -> y' = y.
+Proof. exact @btpe_step5_accept. Qed.
+Theorem C03_btpe_draw_support :
+  forall (S : Type) (src : source S R) (fuel ifuel : nat) (n : N) (p : R) (s : S) (y : R) (s' : S),
+    0 < p < 1 -> 30 < IZR (Z.of_N n) * Rmin p (1 - p) -> unit_source src ->
+    btpe_loop RO src fuel ifuel n p (btpe_setup RO n p) s = Ok (y, s') ->
+    exists z : Z, y = IZR z /\ (0 <= z <= Z.of_N n)%Z.
+Proof. exact @btpe_draw_support. Qed.
+(** step 6 and the cast: the count is at most n and [y as u64] is applied to the integer y (or n - y when p > 1/2) itself *)
+Theorem C03_binomial_btpe_support :
+  forall (S : Type) (src : source S R) (fuel : nat) (n : N) (p : R) (s : S) (x : N) (s' : S),
+    0 < p < 1 -> 30 < IZR (Z.of_N n) * Rmin p (1 - p) -> unit_source src ->
+    binomial_btpe RO src fuel n p s = Ok (x, s') ->
+    (x <= n)%N /\
+    exists y, btpe_loop RO src fuel fuel n p (btpe_setup RO n p) s = Ok (y, s') /\
+              IZR (Z.of_N x) = if Rlt_dec (1 / 2) p then IZR (Z.of_N n) - y else y.
+Proof. exact @binomial_btpe_support. Qed.
+(** [Binomial::sample] in EVERY regime (degenerate, inversion, BTPE; reflection n - x for p > 1/2): no hypothesis on p *)
+Theorem C03_binomial_sample_support :
+  forall (S : Type) (src : source S R) (fuel : nat) (n : N) (p : R) (s : S) (y : R) (s' : S),
+    (n < 18446744073709551616)%N -> unit_source src ->
+    binomial_sample RO src fuel n p s = Ok (y, s') -> exists k : Z, y = IZR k /\ (0 <= k <= Z.of_N n)%Z.
+Proof. exact @binomial_sample_support_all. Qed.
+(** EVERY carrier (binary64 included), every source: an accepted candidate was produced by exactly one of the four regions
+    ([btpe_region]: triangle / parallelogram / left tail with [y < 0] false / right tail with [y > n] false) from the two
+    variates of the accepting iteration *)
+Theorem C03_btpe_accepted_regions :
+  forall (T : Type) (O : Ops T) (S : Type) (src : source S T) (fuel ifuel : nat) (n : N) (p : T) (k : btpe_consts) (s : S) (y : T) (s' : S),
+    btpe_loop O src fuel ifuel n p k s = Ok (y, s') ->
+    exists s0,
+      let us := uniform_sample O src (zero O) (c_p4 k) s0 in
+      let vs := uniform_sample O src (zero O) (one O) (snd us) in
+      s' = snd vs /\ btpe_region O k (fst us) (fst vs) y.
+Proof. exact @btpe_loop_accepted. Qed.
+(** acceptance half: [Binomial::sample] never panics, whatever n and p — [Uniform::new(0., p4)] is reached only with p4 >= 0 *)
+Theorem C03_binomial_sample_never_panics :
+  forall (S : Type) (src : source S R) (fuel : nat) (n : N) (p : R) (s : S), binomial_sample RO src fuel n p s <> Fail.
+Proof. exact @binomial_sample_not_fail. Qed.
+(** the hypotheses are satisfiable, and on a concrete unit source BTPE does return a count *)
+Example C03_example_btpe_regime : 0 < 2 / 5 < 1 /\ 30 < IZR (Z.of_N 100) * Rmin (2 / 5) (1 - 2 / 5).
+Proof. exact btpe_regime_satisfiable. Qed.
+Example C03_example_btpe_returns :
+  exists x : N, binomial_btpe RO (const_source 0) 1 100 (2 / 5) 0%nat = Ok (x, 2%nat) /\ (x <= 100)%N.
+Proof. exact btpe_returns_on_const_source. Qed.
+
+(** ** (b) Poisson: a count for EVERY rate (no hypothesis on lambda); PTRS on every accepted path *)
+Theorem C03_poisson_sample_support :
+  forall (S : Type) (src : source S R) (fuel : nat) (lambda : R) (s : S) (k : R) (s' : S),
+    unit_source src -> poisson_sample RO src fuel lambda s = Ok (k, s') -> exists n : nat, k = INR n.
+Proof. exact @poisson_sample_support. Qed.
+Theorem C03_poisson_ptrs_support :
+  forall (S : Type) (src : source S R) (fuel : nat) (lam : R) (s : S) (k : R) (s' : S),
+    10 <= lam -> unit_source src -> poisson_ptrs RO src fuel lam s = Ok (k, s') -> exists n : nat, k = INR n.
+Proof. exact @poisson_ptrs_support. Qed.
+(** anatomy of an accepted PTRS draw, ANY source: the value is the floor of the transformed variate of the iteration that
+    accepted, that iteration consumed two variates, and it left through the squeeze or, with k >= 0, through the full test *)
+Theorem C03_ptrs_accepted_paths :
+  forall (S : Type) (src : source S R) (fuel : nat) (lam loglam b a invalpha vr : R) (s : S) (k : R) (s' : S),
+    ptrs_loop RO src fuel lam loglam b a invalpha vr s = Ok (k, s') ->
+    exists s0, k = ptrs_candidate src lam b a s0 /\ s' = snd (next_f64 src (snd (next_f64 src s0))) /\
+      let us := 1 / 2 - Rabs (fst (next_f64 src s0) - 1 / 2) in
+      let V := fst (next_f64 src (snd (next_f64 src s0))) in
+      ((7 / 100 <= us /\ V <= vr) \/
+       (0 <= k /\ ~ (us < 13 / 1000 /\ us < V) /\
+        ln V + ln invalpha - ln (a / (us * us) + b) <= - lam + k * loglam - ln_gamma RO (k + 1))).
+Proof. exact @ptrs_loop_accepted. Qed.
+
+(** ** (e) fuel monotonicity, EVERY carrier (binary64 included), every source, every looping sampler: a run that does not
+       end with [Fuel] (a value, or a panic) is reproduced unchanged — value and final generator state — by every larger
+       budget.  "Out of fuel" is therefore the only way the fuelled model differs from the unbounded loops of the code.
+       (Termination with probability one is a statement about measures; it is not stated.) *)
+Theorem C03_sample_fuel_monotone :
+  forall (T : Type) (O : Ops T) (S : Type) (src : source S T) (f f' : nat) (d : dist T) (s : S),
+    (f <= f')%nat -> sample O src f d s <> Fuel -> sample O src f' d s = sample O src f d s.
+Proof. exact @sample_mono. Qed.
+Theorem C03_sample_fuel_monotone_value :
+  forall (T : Type) (O : Ops T) (S : Type) (src : source S T) (f f' : nat) (d : dist T) (s : S) (r : T * S),
+    (f <= f')%nat -> sample O src f d s = Ok r -> sample O src f' d s = Ok r.
+Proof. exact @sample_mono_ok. Qed.
+Theorem C03_sample_fuel_irrelevant :
+  forall (T : Type) (O : Ops T) (S : Type) (src : source S T) (f f' : nat) (d : dist T) (s : S),
+    sample O src f d s <> Fuel -> sample O src f' d s <> Fuel -> sample O src f d s = sample O src f' d s.
+Proof. exact @sample_fuel_irrelevant. Qed.
+Theorem C03_out_of_fuel_downward_closed :
+  forall (T : Type) (O : Ops T) (S : Type) (src : source S T) (f f' : nat) (d : dist T) (s : S),
+    (f <= f')%nat -> sample O src f' d s = Fuel -> sample O src f d s = Fuel.
+Proof. exact @sample_out_of_fuel_downward. Qed.
+Theorem C03_sample_fuel_monotone_Normal :
+  forall (T : Type) (O : Ops T) (S : Type) (src : source S T) (f f' : nat) (mu sigma : T) (s : S),
+    (f <= f')%nat -> normal_sample O src f mu sigma s <> Fuel -> normal_sample O src f' mu sigma s = normal_sample O src f mu sigma s.
+Proof. exact @normal_sample_mono. Qed.
+Theorem C03_sample_fuel_monotone_Exponential :
+  forall (T : Type) (O : Ops T) (S : Type) (src : source S T) (f f' : nat) (lambda : T) (s : S),
+    (f <= f')%nat -> exponential_sample O src f lambda s <> Fuel -> exponential_sample O src f' lambda s = exponential_sample O src f lambda s.
+Proof. exact @exponential_sample_mono. Qed.
+Theorem C03_sample_fuel_monotone_Gumbel :
+  forall (T : Type) (O : Ops T) (S : Type) (src : source S T) (f f' : nat) (mu beta : T) (s : S),
+    (f <= f')%nat -> gumbel_sample O src f mu beta s <> Fuel -> gumbel_sample O src f' mu beta s = gumbel_sample O src f mu beta s.
+Proof. exact @gumbel_sample_mono. Qed.
+Theorem C03_sample_fuel_monotone_Pareto :
+  forall (T : Type) (O : Ops T) (S : Type) (src : source S T) (f f' : nat) (alpha m : T) (s : S),
+    (f <= f')%nat -> pareto_sample O src f alpha m s <> Fuel -> pareto_sample O src f' alpha m s = pareto_sample O src f alpha m s.
+Proof. exact @pareto_sample_mono. Qed.
+(** Gamma: both budgets (outer Marsaglia-Tsang loop, inner positive-v loop with its ziggurat draws) may grow independently *)
+Theorem C03_sample_fuel_monotone_Gamma_loops :
+  forall (T : Type) (O : Ops T) (S : Type) (src : source S T) (f f' i i' : nat) (d beta boost : T) (s : S),
+    (f <= f')%nat -> (i <= i')%nat ->
+    gamma_loop O src f i d beta boost s <> Fuel -> gamma_loop O src f' i' d beta boost s = gamma_loop O src f i d beta boost s.
+Proof. exact @gamma_loop_mono. Qed.
+Theorem C03_sample_fuel_monotone_Gamma :
+  forall (T : Type) (O : Ops T) (S : Type) (src : source S T) (f f' : nat) (alpha beta : T) (s : S),
+    (f <= f')%nat -> gamma_sample O src f alpha beta s <> Fuel -> gamma_sample O src f' alpha beta s = gamma_sample O src f alpha beta s.
+Proof. exact @gamma_sample_mono. Qed.
+Theorem C03_sample_fuel_monotone_Beta :
+  forall (T : Type) (O : Ops T) (S : Type) (src : source S T) (f f' : nat) (a b : T) (s : S),
+    (f <= f')%nat -> beta_sample O src f a b s <> Fuel -> beta_sample O src f' a b s = beta_sample O src f a b s.
+Proof. exact @beta_sample_mono. Qed.
+Theorem C03_sample_fuel_monotone_ChiSquared :
+  forall (T : Type) (O : Ops T) (S : Type) (src : source S T) (f f' : nat) (dof : N) (s : S),
+    (f <= f')%nat -> chi_squared_sample O src f dof s <> Fuel -> chi_squared_sample O src f' dof s = chi_squared_sample O src f dof s.
+Proof. exact @chi_squared_sample_mono. Qed.
+Theorem C03_sample_fuel_monotone_T :
+  forall (T : Type) (O : Ops T) (S : Type) (src : source S T) (f f' : nat) (dof : T) (s : S),
+    (f <= f')%nat -> t_sample O src f dof s <> Fuel -> t_sample O src f' dof s = t_sample O src f dof s.
+Proof. exact @t_sample_mono. Qed.
+Theorem C03_sample_fuel_monotone_Poisson :
+  forall (T : Type) (O : Ops T) (S : Type) (src : source S T) (f f' : nat) (lambda : T) (s : S),
+    (f <= f')%nat -> poisson_sample O src f lambda s <> Fuel -> poisson_sample O src f' lambda s = poisson_sample O src f lambda s.
+Proof. exact @poisson_sample_mono. Qed.
+Theorem C03_sample_fuel_monotone_Binomial :
+  forall (T : Type) (O : Ops T) (S : Type) (src : source S T) (f f' : nat) (n : N) (p : T) (s : S),
+    (f <= f')%nat -> binomial_sample O src f n p s <> Fuel -> binomial_sample O src f' n p s = binomial_sample O src f n p s.
+Proof. exact @binomial_sample_mono. Qed.
+(** BTPE: the rejection loop and the step-5.1 product loop have separate budgets *)
+Theorem C03_sample_fuel_monotone_BTPE_loops :
+  forall (T : Type) (O : Ops T) (S : Type) (src : source S T) (f f' i i' : nat) (n : N) (p : T) (k : btpe_consts) (s : S),
+    (f <= f')%nat -> (i <= i')%nat ->
+    btpe_loop O src f i n p k s <> Fuel -> btpe_loop O src f' i' n p k s = btpe_loop O src f i n p k s.
+Proof. exact @btpe_loop_mono. Qed.
+Theorem C03_sample_n_fuel_monotone :
+  forall (T : Type) (O : Ops T) (S : Type) (src : source S T) (f f' : nat) (d : dist T) (n : nat) (s : S),
+    (f <= f')%nat -> sample_n O src f d n s <> Fuel -> sample_n O src f' d n s = sample_n O src f d n s.
+Proof. exact @sample_n_mono. Qed.
+Theorem C03_sample_matrix_fuel_monotone :
+  forall (T : Type) (O : Ops T) (S : Type) (src : source S T) (f f' : nat) (d : dist T) (r c : nat) (s : S),
+    (f <= f')%nat -> sample_matrix O src f d r c s <> Fuel -> sample_matrix O src f' d r c s = sample_matrix O src f d r c s.
+Proof. exact @sample_matrix_mono. Qed.
+Theorem C03_mvn_sample_fuel_monotone :
+  forall (T : Type) (O : Ops T) (S : Type) (src : source S T) (f f' : nat) (mean : list T) (c : matrix) (n : nat) (s : S),
+    (f <= f')%nat ->
+    (mvn_sample_full O src f mean c s <> Fuel -> mvn_sample_full O src f' mean c s = mvn_sample_full O src f mean c s) /\
+    (mvn_sample_n_full O src f mean c n s <> Fuel -> mvn_sample_n_full O src f' mean c n s = mvn_sample_n_full O src f mean c n s).
+Proof.
+  intros T O S src f f' mean c n s Hle. split; [apply mvn_sample_full_mono|apply mvn_sample_n_full_mono]; exact Hle.
+Qed.
+
+(** ** (d) samplers composed from others, every parameter regime (the shape < 1 boost path of Gamma included) *)
+(** Student t: t = z / sqrt(chi2 / dof), chi2 = 2 g with g a POSITIVE Gamma(dof/2, 1) draw: the divisor is positive *)
+Theorem C03_t_sample_structure :
+  forall (S : Type) (src : source S R) (fuel : nat) (dof : R) (s : S) (t : R) (s' : S),
+    0 < dof -> t_sample RO src fuel dof s = Ok (t, s') ->
+    exists z s1 g,
+      normal_sample RO src fuel 0 1 s = Ok (z, s1) /\ gamma_sample RO src fuel (dof / 2) 1 s1 = Ok (g, s') /\
+      0 < g /\ 0 < R_sqrt.sqrt (2 * g / dof) /\ t = z / R_sqrt.sqrt (2 * g / dof).
+Proof. exact @t_sample_structure. Qed.
+Theorem C03_t_sample_rejects_nonpositive_dof :
+  forall (S : Type) (src : source S R) (fuel : nat) (dof : R) (s : S) (r : R * S),
+    dof <= 0 -> t_sample RO src fuel dof s <> Ok r.
+Proof. exact @t_sample_rejects. Qed.
+Theorem C03_beta_sample_structure :
+  forall (S : Type) (src : source S R) (fuel : nat) (a b : R) (s : S) (x : R) (s' : S),
+    0 < a -> 0 < b -> beta_sample RO src fuel a b s = Ok (x, s') ->
+    exists g1 s1 g2,
+      gamma_sample RO src fuel a 1 s = Ok (g1, s1) /\ gamma_sample RO src fuel b 1 s1 = Ok (g2, s') /\
+      0 < g1 /\ 0 < g2 /\ x = g1 / (g1 + g2) /\ 0 < x < 1.
+Proof. exact @beta_sample_structure. Qed.
+Theorem C03_pareto_support :
+  forall (S : Type) (src : source S R) (fuel : nat) (alpha m : R) (s : S) (x : R) (s' : S),
+    0 < alpha -> 0 < m -> unit_source src -> pareto_sample RO src fuel alpha m s = Ok (x, s') -> m < x.
+Proof. exact @pareto_support. Qed.
+(** capstone: for EVERY distribution object the constructors accept, a returned draw lies in the support of its law
+    ([in_support]: Uniform [lo, hi]; Exponential, Gamma, ChiSquared (0, inf); Pareto (m, inf); Beta (0, 1); Poisson the
+    naturals; Binomial the integers of [0, n] (n a u64); DiscreteUniform the integers of [lo, hi]; Bernoulli {0, 1};
+    Normal, Gumbel, t: the whole line), and so does every entry of a bulk draw *)
+Theorem C03_sample_support :
+  forall (S : Type) (src : source S R) (fuel : nat) (d : dist R) (s : S) (x : R) (s' : S),
+    valid RO d = true -> unit_source src -> range_source src ->
+    sample RO src fuel d s = Ok (x, s') ->
+    match d with
+    | DNormal _ _ | DGumbel _ _ | DT _ => True
+    | DUniform lo hi => lo <= x <= hi
+    | DExponential _ | DGamma _ _ | DChiSquared _ => 0 < x
+    | DPareto _ m => m < x
+    | DBeta _ _ => 0 < x < 1
+    | DPoisson _ => exists n : nat, x = INR n
+    | DBinomial n _ => (n < 18446744073709551616)%N -> exists k : Z, x = IZR k /\ (0 <= k <= Z.of_N n)%Z
+    | DDiscreteUniform lo hi => exists k : Z, x = IZR k /\ (lo <= k <= hi)%Z
+    | DBernoulli _ => x = 0 \/ x = 1
+    end.
+Proof. exact @sample_support. Qed.
+Theorem C03_sample_n_support :
+  forall (S : Type) (src : source S R) (fuel : nat) (d : dist R) (n : nat) (s : S) (l : list R) (s' : S),
+    valid RO d = true -> unit_source src -> range_source src ->
+    sample_n RO src fuel d n s = Ok (l, s') -> length l = n /\ Forall (in_support d) l.
+Proof. exact @sample_n_support. Qed.
+
+(** ** (c) ziggurat: structure of a returned draw, every source of unit variates; index facts for every word *)
+Theorem C03_ziggurat_reads_in_bounds :
+  forall w : N,
+    (zig_i w < 128)%nat /\ (zig_j w < 16777216)%N /\
+    (zig_i w < length zig_K)%nat /\ (zig_i w < length zig_W)%nat /\ (zig_i w < length zig_Y)%nat /\
+    ((zig_i w <? 127)%nat = true -> (Datatypes.S (zig_i w) < length zig_Y)%nat).
+Proof. intros w. split; [apply zig_i_lt|]. split; [apply zig_j_lt|]. apply zig_reads_in_bounds. Qed.
+Theorem C03_normal_sample_structure :
+  forall (S : Type) (src : source S R) (fuel : nat) (mu sigma : R),
+    unit_source src -> forall (s : S) (v : R) (s' : S),
+    normal_sample RO src fuel mu sigma s = Ok (v, s') ->
+    exists (s0 : S) (x : R),
+      let w := fst (next_u64 src s0) in let s1 := snd (next_u64 src s0) in let i := zig_i w in let j := zig_j w in
+      (i < 128)%nat /\ (j < 16777216)%N /\
+      v = zig_sign w * x * sigma + mu /\ 0 <= x /\
+      ( ((j < zK i)%N /\ x = IZR (Z.of_N j) * zW RO i /\ s' = s1)
+        \/ ((zK i <= j)%N /\ (i < 127)%nat /\ x = IZR (Z.of_N j) * zW RO i /\ s' = snd (next_f64 src s1) /\
+            zY RO (Datatypes.S i) + (zY RO i - zY RO (Datatypes.S i)) * fst (next_f64 src s1) < exp (- (1 / 2) * x * x))
+        \/ ((zK i <= j)%N /\ i = 127%nat /\ x = zR RO - ln (1 + - fst (next_f64 src s1)) / zR RO /\ zR RO <= x /\
+            s' = snd (next_f64 src (snd (next_f64 src s1))) /\
+            exp (- zR RO * (x - 1 / 2 * zR RO)) * fst (next_f64 src (snd (next_f64 src s1))) < exp (- (1 / 2) * x * x)) ).
+Proof. exact @normal_sample_structure. Qed.
+
+(** ** acceptance half: an object the constructors accept never makes [sample] panic (the loops contain no panic site; the
+       constructor calls made inside [sample] — [Gamma::new(dof / 2., 1.)] in t, [Uniform::new(0., p4)] in BTPE — receive
+       valid parameters; the range draw is asked for a non-empty range).  Hence, with fuel monotonicity: the outcome of a run
+       on a valid object is a value (of the support, by C03_sample_support) or "out of fuel", nothing else *)
+Theorem C03_sample_never_panics_on_valid_object :
+  forall (S : Type) (src : source S R) (fuel : nat) (d : dist R) (s : S),
+    valid RO d = true -> (forall lo hi s0, (lo <= hi)%Z -> next_range src lo hi s0 <> Fail) ->
+    sample RO src fuel d s <> Fail.
+Proof. exact @sample_not_fail. Qed.
+Theorem C03_sample_outcome_on_valid_object :
+  forall (S : Type) (src : source S R) (fuel : nat) (d : dist R) (s : S),
+    valid RO d = true -> (forall lo hi s0, (lo <= hi)%Z -> next_range src lo hi s0 <> Fail) ->
+    (exists x s', sample RO src fuel d s = Ok (x, s')) \/ sample RO src fuel d s = Fuel.
+Proof. exact @sample_outcome. Qed.
+Example C03_example_range_total : forall lo hi s0, (lo <= hi)%Z -> next_range (const_source (1 / 2)) lo hi s0 <> Fail.
+Proof. exact range_total_inhabited. Qed.
